@@ -45,6 +45,10 @@ Definition mk_op (code : Z) (ls : list (list Z)) : option zop :=
   | 17, [fr] => Some (ZToFloat fr) | 18, _ => Some ZEquilF
   | 19, [fr; outs] => Some (ZMapBA fr outs) | 20, [fr; outs] => Some (ZMapAB fr outs) | 21, [fr; o] => Some (ZAddFA fr o)
   | 22, [[kind]; fr; sc] => Some (ZIter kind fr sc)
+  | 23, _ => Some ZSIdentity | 24, _ => Some ZNumChannels
+  | 25, [fr; [i]; [v]] => Some (ZChannelMut fr i v) | 26, [fr; [i]] => Some (ZChannelUnchecked fr i)
+  | 27, [fr; [i]; [v]] => Some (ZChannelUncheckedMut fr i v)
+  | 28, [fr; news; [dir]] => Some (ZChannelsMutWrite fr news dir)
   | _, _ => None
   end.
 
